@@ -363,6 +363,31 @@ def run(ctx):
                 derived.append(('crafted:%s:%s' % (nm, 'compressed' if comp else 'uncompressed'), Decoder().process(b, wire_template_data=False)))
             except Exception as e:
                 ctx.notes.append('crafted message %s not built: %r' % (nm, e))
+    # uncompressed messages whose subsets carry DIFFERENT bitmaps (a marker operator designating elements of different width
+    # and scale in different subsets) or a different layout before the bitmap: what a selected subset means is decided by
+    # its own rows.  The source is checked against the rows it was built from before it is used.
+    for nm, ids, rows in [
+            ('bitmap-per-subset', [12101, 1001, 10004, 224000, 236000, 101003, 31031, 8023, 224255],
+             # (the two operators carry a 0 each in the flat list)
+             [[280.5, 5, 99000.0, 0, 0, 0, 1, 1, 4, 281.25], [270.25, 9, 98000.0, 0, 0, 1, 0, 1, 4, 11],
+              [260.0, 7, 101300.0, 0, 0, 1, 1, 0, 4, 90000.0], [290.75, 3, 100000.0, 0, 0, 0, 1, 1, 4, 275.0],
+              [285.0, 2, 97000.0, 0, 0, 1, 0, 1, 4, 100]]),
+            ('bitmap-layout-per-subset', [101000, 31001, 12101, 1001, 222000, 236000, 101002, 31031, 33007],
+             [[2, 280.5, 281.5, 5, 0, 0, 0, 1, 70], [1, 270.25, 9, 0, 0, 1, 0, 80], [2, 260.0, 261.0, 7, 0, 0, 1, 0, 60],
+              [1, 250.5, 3, 0, 0, 0, 1, 50]])]:
+        try:
+            b = B2.encode_message(ids, rows, compressed=False).serialized_bytes
+            m0 = Decoder().process(b, wire_template_data=False)
+            got = [list(v) for v in m0.template_data.value.decoded_values_all_subsets]
+            ctx.count(('crafted-source', nm), True)
+            if got != rows:
+                ctx.violation({'kind': 'C10-crafted-source', 'case': {'ids': ids, 'rows': rows}, 'decoded': got},
+                              'the source message %s does not decode to the rows it was encoded from' % nm)
+            else:
+                derived.append(('crafted:%s:uncompressed' % nm, m0))
+        except Exception as e:
+            ctx.violation({'kind': 'C10-crafted-source', 'case': {'ids': ids, 'rows': rows}, 'error': '%s: %s' % (type(e).__name__, str(e)[:200])},
+                          'the source message %s could not be built / decoded: %r' % (nm, e))
     k_rand = ctx.n(25, 120)
     for label, msg in msgs + derived:
         n = msg.n_subsets.value
@@ -470,6 +495,16 @@ def run(ctx):
 def replay(ctx, rec):
     from pybufrkit.decoder import Decoder
     case = rec['case']
+    if rec.get('kind') == 'C10-crafted-source':
+        import bufrlib as B2
+        try:
+            b = B2.encode_message(case['ids'], case['rows'], compressed=False).serialized_bytes
+            got = [list(v) for v in Decoder().process(b, wire_template_data=False).template_data.value.decoded_values_all_subsets]
+        except Exception as e:
+            got = '%s: %s' % (type(e).__name__, str(e)[:200])
+        if got != case['rows']:
+            ctx.violation({'kind': 'C10-crafted-source', 'case': case, 'decoded': got}, 'source does not decode to its rows')
+        return {'decoded': got, 'violations': len(ctx.violations)}
     label = case.get('label', '')
     I = case.get('indices', [])
     if label.startswith('synthetic'):
